@@ -1038,7 +1038,31 @@ def c02_runner(prop, tier, seed, scratch, spec):
     return {"violations": violations, "coverage": cov, "explored": n_img, "known": []}
 
 
-PROPS["C02"] = {"runner": c02_runner, "replay": c12_replay, "level": "proof",
+def c02_replay(prop, replay, scratch):
+    """crash images replay as in C12; a `C02-cow-*.obs` file (a broken copy-on-write premise) re-evaluates the premise
+    on the three images saved next to it"""
+    if replay.endswith(".obs"):
+        base = replay[:-4]
+        f = open(replay).read().split("\n")
+        ps = "1024"
+        ws = ""
+        for l in f:
+            if l.startswith("images:"):
+                ps = l.split("pagesize ")[1].strip()
+            if l.startswith("data writes"):
+                ws = l.split("): ", 1)[1].strip() if "): " in l else ""
+        lst = scratch.path("cow-replay.list")
+        open(lst, "w").write("replay %s.pre.img %s.mid.img %s.post.img %s %s\n" % (base, base, base, ps, ws))
+        rc, o, e, _ = vlib.sh([vlib.JMODEL, "cow", lst], timeout=300)
+        print(o.strip())
+        if "cow-ok" not in o:
+            print("VIOLATION property=%s replay=%s no-failing-input-found" % (prop, replay))
+            return 1
+        return 0
+    return c12_replay(prop, replay, scratch)
+
+
+PROPS["C02"] = {"runner": c02_runner, "replay": c02_replay, "level": "proof",
                 "assumptions": ["A-disk: sector (512 B) atomicity, no reordering across a completed fsync, page cache coherent with mmap", "NoTornCollision: no mix of old and new header words verifies its checksum (evaluated on every synthesised tear)"]}
 
 
